@@ -3,6 +3,8 @@ from __future__ import annotations
 
 import multiprocessing as mp
 import os
+
+import z3
 import time
 import traceback
 
@@ -84,7 +86,8 @@ def run_unit(unit: Unit):
         out["wall"] = time.time() - t0
         return out
     lits = None
-    for pr in results:
+    out["path_checks"] = []
+    for pi, pr in enumerate(results):
         ctx = pr.ctx
         out["solver_calls"] += ctx.solver_calls
         if pr.error:
@@ -98,11 +101,25 @@ def run_unit(unit: Unit):
             out["outcomes"].append(_outcome_str(pr.outcome))
         if lits is None:
             lits = lits_distinct()
+        nfull = len(ctx.hyps)
+        end_obs = 0
         for ob in ctx.obligations:
+            at_end = (len(ob.hyps) + ob.dropped == nfull)
+            end_obs += at_end
             out["obligs"].append({
                 "label": ob.label, "kind": ob.kind, "props": list(ob.props), "path": list(ob.path),
-                "smt2": ob.smt2(lits_distinct()), "note": ob.note, "unit": unit.name, "func": con.qualname,
+                "smt2": ob.smt2(lits_distinct()), "smt2_full": ob.smt2_full(lits_distinct()), "note": ob.note,
+                "unit": unit.name, "func": con.qualname, "path_id": pi if at_end else None,
             })
+        if end_obs >= 2:
+            # one feasibility query per path: if the final path condition is inconsistent, the obligations
+            # stated at the end of this path hold vacuously and need not be sent to the solver one by one
+            s_ = z3.Solver()
+            for h in ctx.hyps:
+                s_.add(h)
+            for h in lits_distinct():
+                s_.add(h)
+            out["path_checks"].append((pi, s_.to_smt2()))
     out["wall"] = time.time() - t0
     return out
 
@@ -201,12 +218,34 @@ def run_units(units, nproc=None, timeout=10, retry=60, want_both=False, only_pro
         source_hash()
         with mp.get_context("fork").Pool(min(nproc, len(units))) as pool:
             reports = pool.map(run_unit_cached, units, chunksize=1)
+    # path feasibility pre-pass
+    pitems = [((ri, pi), txt) for ri, rep in enumerate(reports) for pi, txt in rep.get("path_checks", [])]
+    infeasible = set()
+    if pitems and not os.environ.get("PYVC_NO_PATHCHECK"):
+        ptag = "pathcheck|8|"
+        phits, ptodo = ({}, [(k, t, None) for k, t in pitems]) if os.environ.get("PYVC_NOCACHE") else _verdict_cache_load(pitems, ptag)
+        pver, _ = discharge_all([(k, t) for k, t, _ in ptodo], timeout=8, retry=0)
+        for k, t, pth in ptodo:
+            if pth is not None:
+                try:
+                    os.makedirs(CACHE_DIR, exist_ok=True)
+                    with open(pth + f".{os.getpid()}.tmp", "wb") as f:
+                        pickle.dump(pver[k], f)
+                    os.replace(pth + f".{os.getpid()}.tmp", pth)
+                except OSError:
+                    pass
+        pver.update(phits)
+        infeasible = {k for k, v in pver.items() if v["result"] == "unsat"}
     items = []
+    vacuous = {}
     for ri, rep in enumerate(reports):
         if only_prop is not None:
             rep["obligs"] = [ob for ob in rep["obligs"] if only_prop in ob["props"]]
         for oi, ob in enumerate(rep["obligs"]):
-            items.append(((ri, oi), ob["smt2"]))
+            if ob.get("path_id") is not None and (ri, ob["path_id"]) in infeasible:
+                vacuous[(ri, oi)] = {"result": "unsat", "solver": "z3(path infeasible)", "time": 0.0, "attempts": [("pathcheck", "unsat", 0)]}
+            else:
+                items.append(((ri, oi), ob["smt2"]))
     tag = f"{timeout}|{retry}|{want_both}|"
     if os.environ.get("PYVC_NOCACHE"):
         hits, todo = {}, [(k, t, None) for k, t in items]
@@ -223,6 +262,31 @@ def run_units(units, nproc=None, timeout=10, retry=60, want_both=False, only_pro
             except OSError:
                 pass
     verdicts.update(hits)
+    # portfolio: minimal axiom scope first, then the declared (full) scope for what is still open
+    again = []
+    for ri, rep in enumerate(reports):
+        for oi, ob in enumerate(rep["obligs"]):
+            v = verdicts.get((ri, oi))
+            if v is not None and v["result"] != "unsat" and ob.get("smt2_full"):
+                again.append(((ri, oi), ob["smt2_full"]))
+    if again:
+        ftag = tag + "full|"
+        fhits, ftodo = ({}, [(k, t, None) for k, t in again]) if os.environ.get("PYVC_NOCACHE") else _verdict_cache_load(again, ftag)
+        fver, _ = discharge_all([(k, t) for k, t, _ in ftodo], timeout=timeout, retry=retry, want_both=want_both)
+        for k, t, pth in ftodo:
+            if pth is not None and fver[k]["result"] in ("unsat", "sat", "unknown"):
+                try:
+                    with open(pth + f".{os.getpid()}.tmp", "wb") as f:
+                        pickle.dump(fver[k], f)
+                    os.replace(pth + f".{os.getpid()}.tmp", pth)
+                except OSError:
+                    pass
+        fver.update(fhits)
+        for k, v in fver.items():
+            v["attempts"] = verdicts[k]["attempts"] + [("full-scope",) + tuple(a) for a in v["attempts"]]
+            v["time"] += verdicts[k]["time"]
+            verdicts[k] = v
+    verdicts.update(vacuous)
     nuniq += len({t for k, t in items if k in hits})
     table = {}
     for ri, rep in enumerate(reports):
